@@ -110,6 +110,8 @@ def show(t: Any) -> str:
             return f"{f[5:].split('::')[-1].split('.')[-1]}({', '.join(show(x) for x in a)})"
         if f.startswith("ext:"):
             return f"{f[4:]}({', '.join(show(x) for x in a)})"
+        if f == "after":
+            return f"<{a[0]} after the loop at {str(a[1]).split('::')[-1]}>"
         return f"{f}({', '.join(show(x) for x in a)})"
     if isinstance(t, (Sym, Cat)):
         return repr(t)
@@ -470,6 +472,7 @@ class InterpBase:
         self.ext_objs: list[ExtObj] = []
         self.open: dict[int, OpenInfo] = {}  # id(container) -> OpenInfo (the container is kept alive by the entry)
         self.ctx_bodies: list = []  # bodies of the `with` statements that are entering a generator context manager
+        self.n_asked = 0  # how often a condition was answered by the oracle (freshly or by an earlier decision) rather than by the data
         self.iter_origins: list = []  # (open collection name, member) of the enclosing iterations over known members
         self.active: list = []  # keys of the repo functions / closures being interpreted (recursion)
         self.while_frames: list = []  # [frame, number of oracle decisions on an exit in the current iteration] per active while loop
@@ -542,6 +545,7 @@ class InterpBase:
         return v
 
     def decide(self, atom: App) -> bool:
+        self.n_asked += 1
         v = self.forced(atom)
         if v is None:
             v = self._next_decision()
